@@ -8,13 +8,13 @@ from . import tlc
 from .terms import A, I, V, C, clause, call, and_, or_, then, not_, TRUE, FAIL, CUT
 
 
-def enumerate_instances(max_nodes, max_nodes2=0, max_sol=2, shard=0, shards=1):
+def enumerate_instances(max_nodes, max_nodes2=0, max_sol=2, shard=0, shards=1, ir=False):
     import os
     cfg = "Codegen-%d-%d-%d-%d-%d-%d.cfg" % (max_nodes, max_nodes2, max_sol, shard, shards, os.getpid())
     p = os.path.join(tlc.SPEC, cfg)
     with open(p, "w") as f:
-        f.write("SPECIFICATION Spec\nCONSTANTS MaxNodes = %d\nMaxNodes2 = %d\nMaxSol = %d\nShard = %d\nShards = %d\n"
-                "INVARIANT CodegenRefinesControl\nINVARIANT EmitInstance\nCHECK_DEADLOCK FALSE\n" % (max_nodes, max_nodes2, max_sol, shard, shards))
+        f.write("SPECIFICATION Spec\nCONSTANTS MaxNodes = %d\nMaxNodes2 = %d\nMaxSol = %d\nShard = %d\nShards = %d\nEmitIR = %s\n"
+                "INVARIANT CodegenRefinesControl\nINVARIANT EmitInstance\nCHECK_DEADLOCK FALSE\n" % (max_nodes, max_nodes2, max_sol, shard, shards, "TRUE" if ir else "FALSE"))
     try:
         res = tlc.run("Codegen", cfg, tag="cg-%d-%d" % (os.getpid(), max_nodes))
     finally:
@@ -118,3 +118,85 @@ def scenario(rec, wrapper=False, native=None):
                     wans.append(tuple_terms([a] + list(t) + [b]))
         sem.append({"step": 3, "answers": wans, "end": "stop"})
     return {"scripts": {"P": script}, "steps": steps, "sem": sem, "keys": []}
+
+
+# ---------------------------------------------------------------- drift report for spec/Codegen.tla
+def real_ir(rec):
+    """the intermediate code the REAL YPPrologCompiler.compile_body produces for the instance's
+    clause bodies, in the vocabulary of spec/Codegen.tla"""
+    from . import real
+    import yldprolog.yp_prolog_visitor as vis
+    import yldprolog.yp_generator as gen
+
+    def mk(b):
+        k = b["b"]
+        if k == "leaf":
+            name = "m" if b["j"] == 0 else "c%d" % b["j"]
+            return vis.Predicate(vis.Functor(vis.Atom(name), [vis.VariableTerm("V%d" % b["o"])]))
+        if k == "true":
+            return vis.TruePredicate()
+        if k == "fail":
+            return vis.FailPredicate()
+        if k == "cut":
+            return vis.CutPredicate()
+        if k == "and":
+            return vis.ConjunctionPredicate(mk(b["l"]), mk(b["r"]))
+        if k == "or":
+            return vis.DisjunctionPredicate(mk(b["l"]), mk(b["r"]))
+        if k == "then":
+            return vis.IfThenPredicate(mk(b["c"]), mk(b["t"]))
+        if k == "not":
+            return vis.NegationPredicate(mk(b["g"]))
+        raise ValueError(k)
+
+    class Ctx:
+        debug_filename = ''
+        debug_parser = False
+        debug_generator = False
+        current_source_file = ''
+        outf = None
+    comp = gen.YPPrologCompiler(Ctx)
+
+    def conv(code):
+        out = []
+        for c in code:
+            n = type(c).__name__
+            if n == "YPCodeForeach":
+                call = c.loop_expression
+                name = call.args[0].expr
+                var = call.args[1].l[0].name
+                out.append({"k": "foreach", "j": 0 if name == "m" else int(name[1:]), "o": int(var.rstrip("_")[1:]), "code": conv(c.loop_code)})
+            elif n in ("YPCodeYieldFalse", "YPCodeYieldTrue"):
+                out.append({"k": "yield"})
+            elif n == "YPCodeYieldBreak":
+                out.append({"k": "return"})
+            elif n == "YPCodeBreakableBlock":
+                out.append({"k": "block", "label": int(c.label[5:]), "code": conv(c.body)})
+            elif n == "YPCodeBreakBlock":
+                out.append({"k": "breakblock", "label": int(c.label[5:])})
+            else:
+                out.append({"k": "other:" + n})
+        return out
+    code = []
+    for b in rec["clauses"]:
+        code.extend(conv(comp.compile_body(mk(b))))
+    return code
+
+
+def drift(records, limit=3000):
+    """instances on which the model's IR differs from the real compile_body's (informational)"""
+    import json
+    out = []
+    n = 0
+    for r in records[:limit]:
+        if not r.get("ir") and r.get("ir") != []:
+            continue
+        n += 1
+        try:
+            real = real_ir(r)
+        except Exception as e:
+            out.append({"clauses": r["clauses"], "error": "%s: %s" % (type(e).__name__, e)})
+            continue
+        if json.dumps(real, sort_keys=True) != json.dumps(r["ir"], sort_keys=True):
+            out.append({"clauses": r["clauses"], "model": r["ir"], "real": real})
+    return n, out
